@@ -7,6 +7,7 @@ import Proofs.NTFact
 import Proofs.NTReview
 import Proofs.NTGuards
 import Proofs.NTSmallExact
+import Proofs.NTSmallExact16
 /-!
 # C16 — primality, next prime, factorisation, gcd, lcm match their definitions
 
@@ -126,6 +127,15 @@ bits reported, selects the 40-round row of the table) -/
 theorem is_prime_exact_below_4096 (lg : Int → Int) (n : Int) (hn : n < 4096) (hlg : lg n < 99) :
     ∃ b, isPrime lg n = .ok b ∧ (b = true ↔ 0 ≤ n ∧ n.toNat.Prime) :=
   NTSmall.isPrime_exact_below_4096 lg n hn hlg
+
+/-- **decided instance — exact below 65536 = 2¹⁶, UNCONDITIONALLY**: the range (4096, 65536) is evaluated by the kernel
+through the model in 48 chunks (`Proofs/NTSmall16/C00…C47`, 40 Miller–Rabin rounds each, compared with trial division by the
+primes below 256, which is proved exact below 256² in `NTSmall.tdC_iff`).  Same reading of `hlg` as above.  The property asks
+for 2⁶⁴; everything above 2¹⁶ still rests on ψ₁₂ > 2⁶⁴ (`is_prime_exact_below_2_64_partial`) — kernel evaluation costs
+≈ 25 ms per integer, so this is as far as a decided range reasonably goes. -/
+theorem is_prime_exact_below_65536 (lg : Int → Int) (n : Int) (hn : n < 65536) (hlg : lg n < 99) :
+    ∃ b, isPrime lg n = .ok b ∧ (b = true ↔ 0 ≤ n ∧ n.toNat.Prime) :=
+  NTSmall.isPrime_exact_below_65536 lg n hn hlg
 
 /-- non-vacuity of `hlg`: the exact ⌊log₂ n⌋ satisfies it -/
 example : ∀ n : Int, 1229 < n → n < 2 ^ 64 → (fun n : Int => ((n.toNat.log2 : Nat) : Int)) n < 299 := by
